@@ -1434,7 +1434,14 @@ func TestVerifC18Lifecycle(t *testing.T) {
 		}
 		r := vc.Rng(i)
 		c := verifC18GenLife(r)
-		vc.Case(i, c)
+		if vc.Thorough() && vc.Only < 0 {
+			// a case is a function of (seed, index): the index is
+			// enough to replay it (the inputs of 2.4e6 cases are not
+			// written out).
+			vc.Case(i, nil)
+		} else {
+			vc.Case(i, c)
+		}
 		verifC18RunLife(t, vc, r.Fork("run"), &c)
 		if i%5000 == 3 && i < 100000 {
 			vc.Sample(c)
